@@ -28,7 +28,7 @@ Proof.
   - intros k dfr nn b IH p. cbn [erase bs_field]. destruct (IH nn (p ++ [k])) as [A B].
     destruct (bs_complete nn (erase_b b) (p ++ [k])) as [r es].
     destruct (bs_complete nn b (p ++ [k])) as [r' es']. cbn [fst snd] in *. split; [exact A|].
-    rewrite !errs_of_app, B. f_equal. destruct dfr; [|reflexivity].
+    rewrite !errs_of_app, B. f_equal. destruct dfr as [[n e]|]; [|reflexivity].
     cbn. rewrite errs_of_task_log. reflexivity.
   - intros z nn p. split; reflexivity.
   - intros nn p. split; reflexivity.
@@ -79,6 +79,39 @@ Definition keeps_pending {A} (r : A * mstate) (st : mstate) : Prop := pending (s
 Lemma keeps_add_orphan d st : pending (add_orphan d st) = pending st.
 Proof. unfold add_orphan. destruct (is_done d); reflexivity. Qed.
 
+Lemma gather_norm_pending ds st : pending (snd (gather_norm ds st)) = pending st.
+Proof.
+  unfold gather_norm. destruct (first_exn ds); [apply (proj1 (add_orphans_spec ds st))|].
+  destruct (all_vals ds); reflexivity.
+Qed.
+Lemma collect_sync_pending keys ds st : pending (snd (collect_sync keys ds st)) = pending st.
+Proof.
+  unfold collect_sync. pose proof (gather_norm_pending ds st) as H.
+  destruct (gather_norm ds st) as [g st1]. destruct g; exact H.
+Qed.
+Lemma fields_keeps keys (r : fres * mstate) st :
+  keeps_pending r st ->
+  keeps_pending (match r with
+                 | (FOk ds, st1) => let '(d, st2) := collect_sync keys ds st1 in (SOk d, st2)
+                 | (FRaise x, st1) => (SRaise x, st1)
+                 end) st.
+Proof.
+  unfold keeps_pending. destruct r as [[ds|x] st1]; cbn [snd]; [|auto]. intros H.
+  pose proof (collect_sync_pending keys ds st1) as Hc. destruct (collect_sync keys ds st1) as [d st2].
+  cbn [snd] in *. congruence.
+Qed.
+Lemma items_keeps (r : fres * mstate) st :
+  keeps_pending r st ->
+  keeps_pending (match r with
+                 | (FOk ds, st1) => let '(d, st2) := gather_sync ds st1 in (SOk d, st2)
+                 | (FRaise x, st1) => (SRaise x, st1)
+                 end) st.
+Proof.
+  unfold keeps_pending. destruct r as [[ds|x] st1]; cbn [snd]; [|auto]. intros H.
+  pose proof (gather_norm_pending ds st1) as Hc. unfold gather_sync. destruct (gather_norm ds st1) as [d st2].
+  cbn [snd] in *. congruence.
+Qed.
+
 Lemma nonnull_wrap_keeps nn p r st : keeps_pending r st -> keeps_pending (nonnull_wrap nn p r) st.
 Proof.
   unfold nonnull_wrap, keeps_pending. destruct nn; [|auto]. destruct r as [[d|x] st']; [|auto].
@@ -98,10 +131,8 @@ Proof.
   - intros nn p st. cbn. destruct nn; reflexivity.
   - reflexivity.
   - reflexivity.
-  - intros fs IH nn p st. cbn [erase_b complete_field]. apply nonnull_wrap_keeps. unfold keeps_pending.
-    specialize (IH p st). destruct (start_fields p (erase_fs fs) st) as [[ds|x] st1]; exact IH.
-  - intros inn its IH nn p st. cbn [erase_b complete_field]. apply nonnull_wrap_keeps. unfold keeps_pending.
-    specialize (IH inn p 0%N st). destruct (start_items inn p 0%N (erase_its its) st) as [[ds|x] st1]; exact IH.
+  - intros fs IH nn p st. cbn [erase_b complete_field]. apply nonnull_wrap_keeps. apply fields_keeps. apply IH.
+  - intros inn its IH nn p st. cbn [erase_b complete_field]. apply nonnull_wrap_keeps. apply items_keeps. apply IH.
   - reflexivity.
   - intros f IHf fs IHfs p st. cbn [erase_fs start_fields]. specialize (IHf p st).
     destruct (resolve_field p (erase f) st) as [[d|x] st1]; cbn [snd] in *; [|exact IHf].
@@ -117,8 +148,7 @@ Proof.
     + rewrite keeps_add_orphan. congruence.
   - intros inn p st. cbn. destruct inn; reflexivity.
   - reflexivity.
-  - intros fs IH inn p st. cbn [complete_item]. apply nonnull_wrap_keeps. unfold keeps_pending.
-    specialize (IH p st). destruct (start_fields p (erase_fs fs) st) as [[ds|x] st1]; exact IH.
+  - intros fs IH inn p st. cbn [complete_item]. apply nonnull_wrap_keeps. apply fields_keeps. apply IH.
 Qed.
 
 Lemma serial_next_erase_keeps : forall fs acc st,
@@ -137,8 +167,10 @@ Proof.
     destruct (serial_next [] (erase_fs fs) st0) as [[d|x] st]; cbn [snd] in H; [|exact H].
     destruct d; exact H.
   - pose proof (proj1 (proj2 (proj2 erase_keeps_all)) fs [] st0) as H. unfold keeps_pending in H.
-    destruct (start_fields [] (erase_fs fs) st0) as [[ds|x] st]; cbn [snd] in H; [|exact H].
-    destruct (collect_sync (keys_of (erase_fs fs)) ds); exact H.
+    pose proof (fields_keeps (keys_of (erase_fs fs)) _ st0 H) as H'. unfold keeps_pending in H'.
+    destruct (start_fields [] (erase_fs fs) st0) as [[ds|x] st]; cbn [snd] in H'; [|exact H'].
+    destruct (collect_sync (keys_of (erase_fs fs)) ds st) as [d st2]. cbn [snd] in H'.
+    destruct d; exact H'.
 Qed.
 
 (* the generic executor on the blocking runtime: no completion is needed, and it
